@@ -451,7 +451,7 @@ def wl_bar(ctx, rng, case_no):
 def wl_columns(ctx, rng, case_no):
     from rich.columns import Columns
     w = S.pick_weights(rng)
-    w.pop("zero", None)
+    S.drop_zero(w)
     pool = S.UniquePool(rng, w)
     n = rng.choice([1, 2, 3, 5, 8, 13, 21])
     multi = rng.random() < 0.2
@@ -512,7 +512,7 @@ def wl_columns(ctx, rng, case_no):
 # ---------------------------------------------------------------------------------------------- Tree
 def wl_tree(ctx, rng, case_no):
     w = S.pick_weights(rng)
-    w.pop("zero", None)
+    S.drop_zero(w)
     pool = S.UniquePool(rng, w)
     nodes = []     # DFS order of *visible* nodes: (label, depth)
 
